@@ -231,4 +231,19 @@ META['C19'] = {
   'level_text': 'Proved for the generic codec: an encoding under per-collection limits is at most maxsize bytes; a receiver reading through a limit of maxLen bytes decodes every message that fits to the same object whatever follows it, never sees more than maxLen bytes and its result is independent of anything beyond them; a response (flag byte + error | object) that fits is delivered as exactly what was sent, in particular an error as that error. Re-checked by the kernel on every run against shapes regenerated from rhp/v4/encoding.go and the implementation\'s own maxLen() values: for each of the 30 RPC objects with crisp protocol limits the maximal size under those limits is within its receiver\'s limit, and every error with a description of up to 1014 bytes fits every response limit. The implementation is tied by recomputing exact maximal sizes and per-stream verdicts. Partial: transports are oracle-only.',
 }
 
+META['C20'] = {
+  'rule': ('(a) the eight fixed-size hex identifier types: own text form, one/two characters shorter or longer, upper case, 0x-prefixed, empty, characters outside the alphabet: accept/reject and value recomputed by the model (unmarshalHex), a panic or acceptance as a different value is a violation; '
+           '(b) 30 (1200) random addresses: String/Parse round trip and, for each of the 76 positions, 2 (6) replacement characters (hex digits of both cases and non-hex): Go must reject or return the same address; renderings and a sample of the altered strings recomputed by the model (checksum through BLAKE2b); length / prefix corruptions; '
+           '(c) 400 (20000) currencies (zero, max, small, powers of ten +-1, few significant digits, random widths): String(), ExactString() and JSON round trip; String()/ExactString() recomputed by the model; 20 mutated strings each (spaces, signs, doubled dots, wrong units, moved decimal points, sub-unit precision) whose ParseCurrency verdict and value are recomputed by the model; '
+           '(d) JSON round trip (marshal, unmarshal, marshal again; binary encoding of the value read back equal) of every wire type with a JSON form plus Currency, Block, Network, the four element diffs, Usage, ProtocolVersion, HostSettings: 25 (800) reflection-filled values each (valid UTF-8, years 0-9999) incl. the zero value; '
+           '(e) 300 (10000) random policies through String/ParseSpendPolicy and JSON; specifiers incl. non-alphanumeric; public keys, chain indices, unlock keys, protocol versions, accounts with wrong prefix / length; '
+           '(f) 6 (120) generated chains: every ApplyUpdate and RevertUpdate goes through JSON and must refresh the proof of every tracked element exactly as the original does'),
+  'trusted_base': [KERNEL, EXTRACT, HARNESS, BLAKE,
+                   'encoding/json, encoding/hex, strconv and math/big as used by the marshalers are exercised, not modelled; the model transcribes unmarshalHex, Address.String/UnmarshalText, Currency.String/ExactString/ParseCurrency'],
+  'assumptions': ['ParseCurrency accepts more than the modelled grammar (exponents, fractions: big.Rat syntax); the model reports such inputs as outside its grammar and they are not compared',
+                  'the address theorem exhibits a collision of the 6-byte checksum as its alternative (a 48-bit truncation of BLAKE2b cannot be collision-free in the absolute sense)',
+                  'policy string/JSON forms, specifier quoting, JSON of transactions, blocks, elements, states and updates are decided by the Go-side round-trip oracle only; known finding F6 (a legacy unlock-condition key whose algorithm specifier contains delimiter characters prints a string the parser refuses) is reported as KNOWN-FINDING'],
+  'level_text': 'Proved: hex identifiers: the rendering parses back, and whatever is accepted for a k-byte identifier has exactly 2k characters and is the rendering of the value returned up to the case of hex letters (so wrong length, prefix or alphabet is rejected, never accepted as another value); addresses: round trip, every accepted string is the canonical rendering of the address returned (up to case), and replacing any single character of an address string is rejected, or returns the same address, or exhibits two addresses with equal checksums; currencies: for every value below 2^128 both String() (unit suffix, trimmed fraction) and ExactString() parse back to exactly that value. The implementation is tied by recomputing renderings, verdicts and parsed values. Partial: JSON and policy text forms are oracle-only.',
+}
+
 NOT_YET = {}
